@@ -134,11 +134,12 @@ class FPAdder_SP(Logic):
         _FP_parts_raw(self, 'parts_a_raw', a, None, ea, None)
         _FP_parts_raw(self, 'parts_b_raw', b, None, eb, None)
         
-        # Maximum possible shifting is 23 bits (of the mantisa), so
-        # it is enough with 5 bits for ediff
+        # The exponent difference can be as large as 253 and any difference
+        # above 23 must shift the whole mantisa out, so ediff needs the
+        # full 8 bits (with 5 bits the shift would be ediff mod 32)
         # Also we know ediff will be always positive
 
-        ediff = self.wire('ediff', 5)
+        ediff = self.wire('ediff', 8)
         Sub(self, 'ediff', ea, eb, ediff)
         
         mb3 = self.wire('mb3', mb.getWidth())
